@@ -98,12 +98,19 @@ func main() {
 		if h == "" {
 			continue
 		}
+		dir := *pkgDir
+		hp := pkgPath
+		if i := strings.Index(h, "::"); i >= 0 {
+			// "pkgdir::file": inject into another package directory
+			dir, h = h[:i], h[i+2:]
+			hp = modPath + "/" + dir
+		}
 		src, err := os.ReadFile(h)
 		if err != nil {
 			fatal(err)
 		}
-		overlay[interp.OverlayPath(*repo, *pkgDir, filepath.Base(h))] = src
-		s, in := interp.Directives(src, pkgPath)
+		overlay[interp.OverlayPath(*repo, dir, filepath.Base(h))] = src
+		s, in := interp.Directives(src, hp)
 		for k, v := range s {
 			stubNames[k] = v
 		}
